@@ -79,7 +79,7 @@ def gen_sweep_spec(seed: int, q: int, idx: int):
     spec["procs"].append(ps)
     spec.update(policy="seq", listing="perm", collide=False, name_salt=b % 4, clock_jumps=False, t0=procworld.T0, tz=None)
     spec["faults"] = {"kinds": list(FAULT_KINDS), "p_proc": 1.0, "p_second": 0.0, "horizon": SWEEP_EVENTS}
-    spec["pin"] = {"proc": 0, "ev": 1 + r // SWEEP_ORDS, "ord": r % SWEEP_ORDS}
+    spec["pin"] = {"proc": 0, "ev": 1 + r % SWEEP_EVENTS, "ord": r // SWEEP_EVENTS}  # ordinal-major: every event gets its first fault first
     return spec, [inp], rng_for(PROP, seed, f"sweep-{q}")
 
 
